@@ -1,12 +1,98 @@
-(* C01 — placeholder statements are replaced by the full set as the proofs land. *)
-From Coq Require Import String List ZArith.
-From Bkl Require Import Model.Value Model.Merge.
+(* C01 — layer merge follows the documented rules (merge.go, match.go, util.go).
+   Statements only; proofs are in Proofs/MergeProofs.v. [merge' d s] is the merge of child s over
+   parent d; [key_spec], [entry_rejected], [plain_entry], [strip_required] are defined there. *)
+From Coq Require Import String Ascii List ZArith.
+From Bkl Require Import Model.Value Model.Merge Proofs.MapsProofs Proofs.MergeProofs.
 Import ListNotations.
 Local Open Scope string_scope.
 Local Open Scope list_scope.
 
-(* a child scalar replaces a parent scalar, and the same scalar is rejected *)
+(* a child scalar replaces the parent's scalar; the same scalar is a useless override *)
 Theorem C01_scalar : forall d s, match d with VNull | VMap _ | VList _ => False | _ => True end ->
   merge' d s = if scalar_eqb s d then Err EUseless else Ok s.
 Proof. intros d s H. destruct d; try contradiction; destruct s; reflexivity. Qed.
 Print Assumptions C01_scalar.
+
+(* a null child leaves a parent map or list unchanged; a null parent takes the child.
+   (Over a parent scalar an explicit null child yields null: the code treats it as an override.) *)
+Theorem C01_null : forall d, match d with VMap _ | VList _ | VNull => True | _ => False end ->
+  merge' d VNull = Ok d /\ forall s, merge' VNull s = Ok s.
+Proof. intros d H. split; [destruct d; try contradiction; reflexivity|intro s; destruct s; reflexivity]. Qed.
+Print Assumptions C01_null.
+
+(* maps merge recursively by key: key by key, the result is
+     - the parent's value for keys the child does not mention,
+     - absent for keys the child sets to $delete,
+     - the child's value for new keys,
+     - the recursive merge for keys present on both sides *)
+Theorem C01_map_keywise : forall d s r, NoDup (keys s) -> has_map_bool s "$replace" true = false ->
+  merge' (VMap d) (VMap s) = Ok (VMap r) -> forall k, lookup k r = key_spec d s k.
+Proof. exact merge_map_keywise. Qed.
+Print Assumptions C01_map_keywise.
+
+(* $replace: true replaces the whole map by the child's (minus the marker) *)
+Theorem C01_map_replace : forall d s, has_map_bool s "$replace" true = true ->
+  merge' (VMap d) (VMap s) = Ok (VMap (remove "$replace" s)).
+Proof. exact merge_map_replace. Qed.
+Print Assumptions C01_map_replace.
+
+(* a map child is rejected exactly when one of its entries is a $delete of an absent key or a
+   rejected override of a present key *)
+Theorem C01_map_reject_iff : forall d s, NoDup (keys s) -> has_map_bool s "$replace" true = false ->
+  ((exists er, merge' (VMap d) (VMap s) = Err er) <-> exists kv, In kv s /\ entry_rejected d kv).
+Proof. exact merge_map_reject_iff. Qed.
+Print Assumptions C01_map_reject_iff.
+
+(* lists concatenate parent-then-child (the parent's $required placeholders are dropped) *)
+Theorem C01_list_concat : forall d s, no_list_replace s -> Forall plain_entry s ->
+  merge' (VList d) (VList s) = Ok (VList (strip_required d ++ s)).
+Proof. exact merge_list_concat. Qed.
+Print Assumptions C01_list_concat.
+
+Theorem C01_list_replace : forall d s, existsb (fun v => is_str v "$replace") s = true ->
+  merge' (VList d) (VList s) = Ok (VList (filter (fun v => negb (is_str v "$replace")) s)).
+Proof. exact merge_list_replace_string. Qed.
+Print Assumptions C01_list_replace.
+
+(* list $delete removes exactly the matching entries, and is rejected when it hits nothing *)
+Theorem C01_list_delete : forall d pat,
+  merge' (VList d) (VList [VMap [("$delete", pat)]]) =
+    if existsb (fun v => vmatch v pat) (strip_required d)
+    then Ok (VList (filter (fun v => negb (vmatch v pat)) (strip_required d))) else Err EUseless.
+Proof. exact merge_list_delete_entry. Qed.
+Print Assumptions C01_list_delete.
+
+(* a directive entry carrying extra keys is rejected *)
+Theorem C01_extra_keys : forall d pat k x, String.eqb "$delete" k = false -> String.eqb "$replace" k = false ->
+  merge' (VList d) (VList [VMap [("$delete", pat); (k, x)]]) = Err EExtraKeys.
+Proof. exact merge_list_delete_extra. Qed.
+Print Assumptions C01_extra_keys.
+
+(* a scalar or list over a non-empty map, a scalar or map over a list: rejected *)
+Theorem C01_type_clash_map : forall d s, d <> [] -> match s with VMap _ | VNull => False | _ => True end ->
+  merge' (VMap d) s = Err EInvalidType.
+Proof. exact merge_type_clash_map. Qed.
+Print Assumptions C01_type_clash_map.
+
+Theorem C01_type_clash_list : forall d s, match s with VList _ | VNull => False | _ => True end ->
+  merge' (VList d) s = Err EInvalidType.
+Proof. exact merge_type_clash_list. Qed.
+Print Assumptions C01_type_clash_list.
+
+(* over any number of layers: a key no layer mentions is preserved unchanged *)
+Theorem C01_chain_frame : forall k layers, Forall (quiet_layer k) layers -> forall b r,
+  fold_left (fun acc l => bind acc (fun a => merge' a l)) layers (Ok (VMap b)) = Ok r ->
+  exists m, r = VMap m /\ lookup k m = lookup k b.
+Proof. exact chain_frame. Qed.
+Print Assumptions C01_chain_frame.
+
+(* non-vacuity: the documentation's map example and a list $match example, computed *)
+Example C01_doc_example :
+  merge' (VMap [("a", VInt 1); ("b", VMap [("c", VInt 2)])]) (VMap [("b", VMap [("d", VInt 3)]); ("e", VInt 4)])
+  = Ok (VMap [("a", VInt 1); ("b", VMap [("c", VInt 2); ("d", VInt 3)]); ("e", VInt 4)]).
+Proof. reflexivity. Qed.
+Example C01_match_example :
+  merge' (VList [VMap [("id", VInt 1); ("v", VInt 1)]; VMap [("id", VInt 2)]])
+         (VList [VMap [("$match", VMap [("id", VInt 1)]); ("v", VInt 5)]])
+  = Ok (VList [VMap [("id", VInt 1); ("v", VInt 5)]; VMap [("id", VInt 2)]]).
+Proof. reflexivity. Qed.
